@@ -1,37 +1,52 @@
 #!/bin/bash
-# Development aid: confirm a candidate mutant independently.
-#   ./confirm_mutant.sh <dir with patch.diff and demo/> 
-# In a scratch worktree of /repo: patch applies, builds, the touched packages' tests pass, the demo fails with the
-# patch and passes without it.  Prints a JSON summary on the last line.
+# Development aid: confirm a candidate seeded change independently.
+#   ./confirm_mutant.sh <dir with patch.diff and demo/>
+# In a scratch worktree of /repo: the patch applies, every touched module builds (with and without -tags verif),
+# the touched packages' existing tests pass, the demonstration fails with the patch and passes without it.
+# Commands run from the module that owns the package (root module or one of the etcd modules).
+# Prints a JSON summary on the last line.
 set -u
 dir=$(readlink -f "$1")
 export GOFLAGS=-mod=mod GOPROXY=off GOSUMDB=off
 scratch=/tmp/mut-confirm-$$
 git -C /repo worktree add -q --detach "$scratch" HEAD || exit 2
-trap 'git -C /repo worktree remove --force "$scratch" >/dev/null 2>&1' EXIT
+trap 'git -C /repo worktree remove --force "$scratch" >/dev/null 2>&1; rm -f /tmp/demo_with_$$ /tmp/demo_without_$$ /tmp/resp_fail_$$' EXIT
 cd "$scratch"
+moddir() { # nearest directory at or above $1 holding a go.mod
+  local d=$1
+  while [ "$d" != "." ] && [ ! -f "$d/go.mod" ]; do d=$(dirname "$d"); done
+  echo "$d"
+}
 demo=$(ls "$dir"/demo/*.go | head -1)
 hdr=$(head -1 "$demo")
-pkgdir=$(echo "$hdr" | sed -n 's/.*copy to \([a-zA-Z_\/]*\)\/.*/\1/p')
-runcmd=$(echo "$hdr" | sed -n 's/.*\(go test [^ ]* -run [A-Za-z0-9_]*\).*/\1/p')
-[ -z "$pkgdir" ] && { echo "cannot parse demo header: $hdr"; exit 2; }
+pkgdir=$(echo "$hdr" | sed -n 's/.*copy to \([a-zA-Z0-9_\/]*\)\/ .*/\1/p')
+[ -z "$pkgdir" ] && pkgdir=$(echo "$hdr" | sed -n 's/.*copy to \([a-zA-Z0-9_\/]*\)\/.*/\1/p')
+tname=$(echo "$hdr" | sed -n 's/.*-run \([A-Za-z0-9_]*\).*/\1/p')
+[ -z "$pkgdir" ] || [ -z "$tname" ] && { echo "cannot parse demo header: $hdr"; exit 2; }
+dmod=$(moddir "$pkgdir")
+drel=${pkgdir#$dmod}; drel=${drel#/}
+runcmd="go test ./$drel -run ^$tname\$ -count=1"
 pkgs=$(grep '^+++ b/' "$dir/patch.diff" | sed 's/^+++ b\///' | xargs -n1 dirname | sort -u)
 applies=no; builds=no; tests=no; demo_fails_with=no; demo_passes_without=no
 if git apply "$dir/patch.diff"; then applies=yes; fi
-if go build ./... >/dev/null 2>&1 && go build -tags verif ./... > /dev/null 2>&1; then builds=yes; fi
+mods=$(for p in $pkgs $pkgdir; do moddir "$p"; done | sort -u)
+bok=1
+for m in $mods; do
+  (cd "$m" && go build ./... >/dev/null 2>&1 && go build -tags verif ./... >/dev/null 2>&1) || bok=0
+done
+[ $bok = 1 ] && builds=yes
 ok=1
 for p in $pkgs; do
+  m=$(moddir "$p"); rel=${p#$m}; rel=${rel#/}
   case "$p" in
-    etcd/*) mod=$(echo $p | cut -d/ -f1-2); [ -f "$mod/go.mod" ] || mod=$(echo $p | cut -d/ -f1-3); (cd $mod && go test -count=1 ./${p#$mod/}/ >/dev/null 2>&1) || ok=0 ;;
     resp) # two resp tests fail on the pinned tree already: compare by name
-       go test -count=1 ./resp 2>&1 | grep "^--- FAIL" | sort > /tmp/resp_fail_$$; if [ "$(cat /tmp/resp_fail_$$ | awk '{print $3}' | tr '\n' ' ')" != "TestParseArrayHeader TestParseStream " ]; then ok=0; fi; rm -f /tmp/resp_fail_$$ ;;
-    *) go test -count=1 ./$p/ >/dev/null 2>&1 || ok=0 ;;
+       go test -count=1 ./resp 2>&1 | grep "^--- FAIL" | sort > /tmp/resp_fail_$$; if [ "$(cat /tmp/resp_fail_$$ | awk '{print $3}' | tr '\n' ' ')" != "TestParseArrayHeader TestParseStream " ]; then ok=0; fi ;;
+    *) (cd "$m" && timeout 1500 go test -count=1 ./$rel/ >/dev/null 2>&1) || ok=0 ;;
   esac
 done
 [ $ok = 1 ] && tests=yes
 cp "$dir"/demo/*.go "$pkgdir"/
-if ! timeout 300 $runcmd -count=1 >/tmp/demo_with_$$ 2>&1; then demo_fails_with=yes; fi
+if ! (cd "$dmod" && timeout 300 $runcmd >/tmp/demo_with_$$ 2>&1); then demo_fails_with=yes; fi
 git apply -R "$dir/patch.diff"
-if timeout 300 $runcmd -count=1 >/tmp/demo_without_$$ 2>&1; then demo_passes_without=yes; fi
-rm -f /tmp/demo_with_$$ /tmp/demo_without_$$
-echo "{\"applies\":\"$applies\",\"builds\":\"$builds\",\"existing_tests_pass\":\"$tests\",\"demo_fails_with_patch\":\"$demo_fails_with\",\"demo_passes_without_patch\":\"$demo_passes_without\",\"demo_cmd\":\"$runcmd\",\"packages\":\"$pkgs\"}"
+if (cd "$dmod" && timeout 300 $runcmd >/tmp/demo_without_$$ 2>&1); then demo_passes_without=yes; fi
+echo "{\"applies\":\"$applies\",\"builds\":\"$builds\",\"existing_tests_pass\":\"$tests\",\"demo_fails_with_patch\":\"$demo_fails_with\",\"demo_passes_without_patch\":\"$demo_passes_without\",\"demo_cmd\":\"(in ${dmod}) $runcmd\",\"packages\":\"$(echo $pkgs)\"}"
